@@ -3,22 +3,27 @@
 // and pops with isolation 0 / 1 / 2, and (acting as a thief, which is legal while the owner is outside the pool) steals with isolation
 // 0 / 1.  A task skipped because of its tag leaves holes and "omitted" scans behind; nothing may be lost, handed out twice, or handed
 // to a taker whose isolation does not match, and a taker gets nothing only if the pool holds nothing it may take.
-// -p depth=L : all sequences of length 1..L over {S a b G A B T U}; -p pre=N : N untagged tasks spawned (and N/2 stolen) first,
+// -p proxies=1 adds: p / q spawn a task with an affinity hint (a task_proxy in the pool, tag 0 / 1, also "mailed"), M the mailbox side claims
+//    the oldest mailed proxy (whoever comes second finds the proxy empty and frees it - its memory is reused by the next proxy).
+// -p depth=L : all sequences of length 1..L over {S a b G A B T U [p q M]}; -p pre=N : N untagged tasks spawned (and N/2 stolen) first,
 //    so that the scans also run on a pool with an advanced head.
 #include "governor.h"
 #include "arena.h"
 #include "arena_slot.h"
 #include "thread_data.h"
 #include "task_dispatcher.h"
+#include "mailbox.h"
+#include "small_object_pool_impl.h"
 #include "vfh.h"
 using namespace vfh; using namespace tbb::detail;
 struct T : d1::task { int id; d1::task* execute(d1::execution_data&) override { return nullptr; } d1::task* cancel(d1::execution_data&) override { return nullptr; } };
-static const char ALPHA[] = "SabGABTU"; static const int NA = 8;
+static const char ALPHA[] = "SabGABTUpqM"; static int NA = 8;   // NA = 11 with -p proxies=1
 static int DEPTH = 5, PRE = 0;
 static void scenario(long c) {
     int len = 1; long block = NA; while (c >= block) { c -= block; block *= NA; len++; }
     char seq[16]; for (int i = 0; i < len; i++) { seq[i] = ALPHA[c % NA]; c /= NA; } seq[len] = 0;
-    r1::arena& a = r1::arena::allocate_arena(nullptr, 2, 1, 1);
+    static r1::arena* the_arena = &r1::arena::allocate_arena(nullptr, 2, 1, 1);   // one arena for all cases: every case drains and frees the task pool of the slot
+    r1::arena& a = *the_arena;
     r1::arena_slot& s = a.my_slots[0];
     static T tasks[64]; int next = 0; int tag[64]; int state[64];   // state: 0 not spawned, 1 in pool, 2 taken
     // get_task() re-advertises work after a scan that skipped tasks: ed.task_disp->m_thread_data->my_arena->advertise_new_work<wakeup>().
@@ -28,8 +33,14 @@ static void scenario(long c) {
     memset(tdbuf, 0, sizeof tdbuf); memset(dbuf, 0, sizeof dbuf);
     r1::thread_data* td = reinterpret_cast<r1::thread_data*>(tdbuf); r1::task_dispatcher* disp = reinterpret_cast<r1::task_dispatcher*>(dbuf);
     td->my_arena = &a; disp->m_thread_data = td; a.my_pool_state.test_and_set();
+    static r1::small_object_pool_impl* sop = new (r1::cache_aligned_allocate(sizeof(r1::small_object_pool_impl))) r1::small_object_pool_impl{}; td->my_small_object_pool = sop;
+    std::vector<r1::task_proxy*> mailed;   // the "mailbox" of the other slot: proxies in mailing order, claimed by op M
     r1::execution_data_ext ed{}; ed.task_disp = disp;
     auto spawn = [&](int tg) { tasks[next].id = next; r1::task_accessor::isolation(tasks[next]) = (r1::isolation_type)tg; tag[next] = tg; state[next] = 1; s.spawn(tasks[next]); next++; };
+    auto spawn_proxy = [&](int tg) { tasks[next].id = next; r1::task_accessor::isolation(tasks[next]) = (r1::isolation_type)tg; tag[next] = tg; state[next] = 1;
+        d1::small_object_allocator alloc{}; auto proxy = alloc.new_object<r1::task_proxy>(static_cast<d1::execution_data&>(ed)); r1::task_accessor::set_proxy_trait(*proxy); r1::task_accessor::isolation(*proxy) = (r1::isolation_type)tg;
+        proxy->allocator = alloc; proxy->slot = 1; proxy->outbox = &a.mailbox(1); proxy->task_and_tag = intptr_t(&tasks[next]) | r1::task_proxy::location_mask; proxy->next_in_mailbox.store(nullptr, std::memory_order_relaxed);
+        mailed.push_back(proxy); s.spawn(*proxy); next++; };
     auto eligible = [&](int iso) { for (int i = 0; i < next; i++) if (state[i] == 1 && (iso == 0 || tag[i] == iso)) return true; return false; };
     auto took = [&](d1::task* t, int iso, const char* who, int step) {
         if (!t) { if (eligible(iso)) vf_fail("%s with isolation %d got nothing at step %d of \"%s\" although the pool holds a task it may take", who, iso, step, seq); return; }
@@ -42,18 +53,25 @@ static void scenario(long c) {
     std::string out;
     for (int k = 0; k < len; k++) {
         char o = seq[k];
-        if (o == 'S') spawn(0); else if (o == 'a') spawn(1); else if (o == 'b') spawn(2);
+        if (o == 'S') spawn(0); else if (o == 'a') spawn(1); else if (o == 'b') spawn(2); else if (o == 'p') spawn_proxy(0); else if (o == 'q') spawn_proxy(1);
+        else if (o == 'M') { if (mailed.empty()) { out += '~'; continue; } r1::task_proxy* tp = mailed.front(); mailed.erase(mailed.begin());   // what get_mailbox_task does with a popped proxy
+            if (d1::task* t = tp->extract_task<r1::task_proxy::mailbox_bit>()) { took(t, 0, "mailbox", k); out += char('A' + static_cast<T*>(t)->id); } else { tp->allocator.delete_object(tp, static_cast<d1::execution_data&>(ed)); out += '^'; } }
         else if (o == 'G' || o == 'A' || o == 'B') { int iso = o == 'G' ? 0 : o == 'A' ? 1 : 2; d1::task* t = s.is_task_pool_published() ? s.get_task(ed, (r1::isolation_type)iso) : nullptr; took(t, iso, "get_task", k); out += t ? char('0' + static_cast<T*>(t)->id) : '-'; }
-        else { int iso = o == 'T' ? 0 : 1; d1::task* t = s.is_task_pool_published() ? s.steal_task(a, (r1::isolation_type)iso, 0) : nullptr; took(t, iso, "steal_task", k); out += t ? char('a' + static_cast<T*>(t)->id) : '.'; }
+        else { int iso = o == 'T' ? 0 : 1; d1::task* t = s.is_task_pool_published() ? s.steal_task(a, (r1::isolation_type)iso, 0) : nullptr;
+            if (t && r1::task_accessor::is_proxy_task(*t)) {   // what arena::steal_task does with a stolen proxy
+                r1::task_proxy& tp = *static_cast<r1::task_proxy*>(t); t = tp.extract_task<r1::task_proxy::pool_bit>(); if (!t) { tp.allocator.delete_object(&tp, static_cast<d1::execution_data&>(ed)); out += '!'; continue; } }
+            if (t || NA == 8) took(t, iso, "steal_task", k);   // with proxies a steal may legitimately skip a mailed proxy (mailbox heuristics), so an empty-handed steal is not judged
+            out += t ? char('a' + static_cast<T*>(t)->id) : '.'; }
     }
     while (s.is_task_pool_published()) { d1::task* t = s.get_task(ed, r1::no_isolation); if (!t) break; took(t, 0, "drain", len); }
+    for (r1::task_proxy* tp : mailed) { if (d1::task* t = tp->extract_task<r1::task_proxy::mailbox_bit>()) took(t, 0, "mailbox drain", len); else tp->allocator.delete_object(tp, static_cast<d1::execution_data&>(ed)); }
     for (int i = 0; i < next; i++) if (state[i] == 1) vf_fail("task %d (tag %d) was lost: the pool is drained but it was never handed out (sequence \"%s\")", i, tag[i], seq);
     if (s.is_task_pool_published() && !s.is_empty()) vf_fail("pool not empty after the drain (\"%s\")", seq);
     a.my_slots[0].free_task_pool();
     vf_outcome("%s %s", seq, out.c_str());
 }
 int main(int argc, char** argv) {
-    for (int i = 1; i + 1 < argc; i++) if (!strcmp(argv[i], "-p")) { if (!strncmp(argv[i + 1], "depth=", 6)) DEPTH = atoi(argv[i + 1] + 6); if (!strncmp(argv[i + 1], "pre=", 4)) PRE = atoi(argv[i + 1] + 4); }
+    for (int i = 1; i + 1 < argc; i++) if (!strcmp(argv[i], "-p")) { if (!strncmp(argv[i + 1], "depth=", 6)) DEPTH = atoi(argv[i + 1] + 6); if (!strncmp(argv[i + 1], "pre=", 4)) PRE = atoi(argv[i + 1] + 4); if (!strcmp(argv[i + 1], "proxies=1")) NA = 11; }
     long n = 0, b = NA; for (int l = 1; l <= DEPTH; l++) { n += b; b *= NA; }
     return vf_main_cases(argc, argv, n, scenario);
 }
